@@ -73,7 +73,10 @@ func TestRecord(t *testing.T) {
 			}
 			tw := vfutil.NewTraceWriter(filepath.Join(dir, u.Name+"_"+kind+".ndjson"))
 			for r := 0; r < runs; r++ {
-				events += recordRun(tw, rep, u, kind == "leg", rnd, corrupt != "" && r == runs/2, corrupt)
+				if corrupt != "" && r == runs/2 {
+					corruptPending = true // stays pending until an event of the right kind has been falsified
+				}
+				events += recordRun(tw, rep, u, kind == "leg", rnd, corrupt)
 				rep.AddReplayed(1)
 			}
 			tw.Close()
@@ -93,7 +96,9 @@ func guarded(f func()) (p any) {
 	return nil
 }
 
-func recordRun(tw *vfutil.TraceWriter, rep *vfutil.Report, u universeDef, legacyRemote bool, rnd *rand.Rand, corruptThis bool, corrupt string) int {
+var corruptPending bool
+
+func recordRun(tw *vfutil.TraceWriter, rep *vfutil.Report, u universeDef, legacyRemote bool, rnd *rand.Rand, corrupt string) int {
 	cfg := bcfg{Df: u.Df, D: u.D, Th: 1 + rnd.Intn(3), Ids: u.Ids, Peers: []string{"L", "R"}}
 	if legacyRemote {
 		cfg.Legacy = []string{"R"}
@@ -133,8 +138,9 @@ func recordRun(tw *vfutil.TraceWriter, rep *vfutil.Report, u universeDef, legacy
 			}
 			rep.Case(fmt.Sprintf("trace/%s/Set%d/df%d", peer, min(cnt, 2), u.Df))
 			st := w.project(x)
-			if corruptThis && corrupt == "count" && s == steps/2 {
+			if corruptPending && corrupt == "count" {
 				st.Cnt[0]++ // binding self-test: the logged top counter is falsified
+				corruptPending = false
 			}
 			emit(traceEvent{"ev": "Set", "peer": peer, "els": mels, "st": st})
 		default:
@@ -165,9 +171,9 @@ func recordRun(tw *vfutil.TraceWriter, rep *vfutil.Report, u universeDef, legacy
 				asked = append(asked, rr)
 			}
 			removed := w.names2(run.Got.Removed)
-			if corruptThis && corrupt == "diff" && len(removed) > 0 {
+			if corruptPending && corrupt == "diff" && len(removed) > 0 {
 				removed = removed[1:] // binding self-test: one reported id is dropped from the log
-				corruptThis = false
+				corruptPending = false
 			}
 			ev := traceEvent{"ev": "Diff", "variant": variant, "transport": tr, "err": run.Err + run.Panic,
 				"new": w.names2(run.Got.New), "ours": w.names2(run.Got.Ours), "theirs": w.names2(run.Got.Theirs), "removed": removed,
